@@ -434,3 +434,42 @@ def run(ctx):
         else:
             rs.unrec("closing parentheses")
         ctx.floor(rs, 3)
+
+    if ctx.want("R5b"):
+        rs = ctx.rule("R5b", "sort syntax: user-defined sort names are quoted wherever they are printed (interpreted)")
+        from ..absint import Interp, Explorer, Unsupported
+        from ..world import World
+        cases = [("my sort", 0, [], False, "|my sort|"), ("my sort", 0, [], True, "() |my sort|"),
+                 ("my sort", 1, ["INT"], False, "(|my sort| Int)"), ("my sort", 2, ["INT", "BOOL"], False, "(|my sort| Int Bool)"),
+                 ("Elem", 0, [], False, "Elem"), ("Pair", 1, ["REAL"], False, "(Pair Real)"),
+                 ("a|b", 0, [], False, "|a\\|b|")]
+        for name, arity, params, funstyle, want in cases:
+            def one(ex, name=name, arity=arity, params=params, funstyle=funstyle):
+                it = Interp(ex)
+                w = World().attach(it)
+                tm = w.env.attrs["_type_manager"]
+                decl = it.call(it.getattr(tm, "Type"), [name, arity])
+                ty = decl
+                if arity:
+                    args = [it.module_global(w.repo.modules["pysmt.typing"], p) for p in params]
+                    ty = it.call(it.getattr(tm, "get_type_instance"), [decl] + args)
+                return it.call(it.getattr(ty, "as_smtlib"), [], {"funstyle": funstyle})
+            try:
+                paths = Explorer(max_paths=20).run(one)
+            except Unsupported as e:
+                rs.unrec("as_smtlib(%r/%d): %s" % (name, arity, e))
+                continue
+            for p in paths:
+                if p.kind == "return" and isinstance(p.value, str):
+                    if p.value == want:
+                        rs.ok({"sort": "%s/%d" % (name, arity), "printed": p.value})
+                    else:
+                        ctx.finding(rs, "pysmt.typing.PySMTType.as_smtlib|sort-syntax|%s/%d|%s" % (name, arity, funstyle),
+                                    "the sort %r (arity %d) is printed as `%s`; well-formed SMT-LIB is `%s`"
+                                    % (name, arity, p.value, want), "pysmt/typing.py")
+                elif p.kind == "raise":
+                    rs.unrec("as_smtlib(%r/%d) raises %s" % (name, arity, p.value.cls_name))
+                else:
+                    rs.unrec("as_smtlib(%r/%d): %s" % (name, arity, str(p.value)[:100]))
+        ctx.floor(rs, 5)
+
